@@ -1155,21 +1155,33 @@ class Timeseries:
                     "outside of the global range of times is not allowed."
                 )
 
-        for ensemble_member in range(len(self.__values)):
-            if n_delta_e > 0:
-                # New end datetime lies after old end datetime (timeseries will be lengthened).
-                filler = np.empty(n_delta_e)
-                filler.fill(np.nan)
-                for key in self.__values[ensemble_member].keys():
-                    self.__values[ensemble_member][key] = np.hstack(
-                        (self.__values[ensemble_member][key], filler)
+        if self.__dt:
+            # Number of time stamps of the resized series
+            n_target = (
+                int(
+                    round(
+                        (end_datetime - start_datetime).total_seconds()
+                        / self.__dt.total_seconds()
                     )
-            elif n_delta_e < 0:
-                # New end datetime lies before old end datetime (timeseries will be shortened).
-                for key in self.__values[ensemble_member].keys():
-                    self.__values[ensemble_member][key] = self.__values[ensemble_member][key][
-                        :n_delta_e
-                    ]
+                )
+                + 1
+            )
+
+        for ensemble_member in range(len(self.__values)):
+            for key in self.__values[ensemble_member].keys():
+                values = self.__values[ensemble_member][key]
+                if self.__dt:
+                    # Relative to what is left after adjusting the start: the new window
+                    # need not overlap the old one.
+                    n_delta_e = n_target - len(values)
+                if n_delta_e > 0:
+                    # New end datetime lies after old end datetime (timeseries will be lengthened).
+                    filler = np.empty(n_delta_e)
+                    filler.fill(np.nan)
+                    self.__values[ensemble_member][key] = np.hstack((values, filler))
+                elif n_delta_e < 0:
+                    # New end datetime lies before old end datetime (timeseries will be shortened).
+                    self.__values[ensemble_member][key] = values[:n_delta_e]
         self.__end_datetime = end_datetime
 
     @property
